@@ -324,6 +324,21 @@ def classic_copy(chk):
         rl = a.call(lambda: len(remote))
         if rl != 3:
             chk.violation("obtain:independent", "C03 changing the obtained copy changed the remote original", {"mode": "obtain"})
+        # a value that travelled by copy but carries references inside: obtain must copy those too
+        mixed = a.call(lambda: root.eval("((1, 2), 'txt', [1, 2, 3], {'k': 1})"))
+        chk.evaluated()
+        if type(mixed) is tuple and len(mixed) == 4 and is_proxy(mixed[2]):
+            got = a.call(lambda: classic.obtain(mixed))
+            if type(got) is not tuple or is_proxy(got[2]) or is_proxy(got[3]) or got != ((1, 2), "txt", [1, 2, 3], {"k": 1}):
+                chk.violation("obtain:nested", "C03 obtain() of a tuple holding references returned %s" % (
+                    [type(x).__name__ for x in got] if type(got) is tuple else type(got),), {"mode": "obtain"})
+            else:
+                got[2].append(4)
+                if a.call(lambda: len(mixed[2])) != 3:
+                    chk.violation("obtain:nested-independent", "C03 changing the obtained copy changed the owner's object", {"mode": "obtain"})
+        else:
+            chk.violation("obtain:setup", "C03 a tuple mixing values and containers did not arrive as a tuple with references", {})
+        del mixed
         mine = {"a": [1, 2], "b": (3,)}
         delivered = a.call(lambda: classic.deliver(a.conn, mine))
         chk.evaluated()
